@@ -598,6 +598,7 @@ class RowWiseModifiedBisectionSearch:
                 target_spacings.append(current_spacing)
                 current_spacing += spacing_change
             best_field = None
+            best_specifier = None
             best_drilling = float("inf")
             best_excess = None
             best_spacing = None
@@ -635,15 +636,19 @@ class RowWiseModifiedBisectionSearch:
 
                 if best_field is None:
                     best_field = field
+                    best_specifier = f_s
                     best_drilling = total_drilling
                     best_excess = t_e
                     best_spacing = ts
                 elif t_e <= 0.0 and total_drilling < best_drilling:
                     best_drilling = total_drilling
                     best_field = field
+                    best_specifier = f_s
                     best_excess = t_e
                     best_spacing = ts
             selected_coordinates = best_field
+            # the specifier that describes the selected field (not the one of the last satisfactory bisection probe, which may not exist)
+            selected_specifier = best_specifier
             selected_temp_excess = best_excess
             selected_spacing = best_spacing
 
